@@ -53,4 +53,5 @@ flows! {
     t_defer_count(a: u32) -> (out: usize);
     t_sort_enumerate_fold(a: u32) -> (out: u32);
     t_cycle(a: u32) -> (out: u32);
+    t_join_half_unord(a: (u32, u32), b: (u32, u32)) -> (out: (u32, (u32, u32)));
 }
